@@ -1,1 +1,2 @@
 import Dalek.Props.C08.Sign
+import Dalek.Props.C08.HashInputs
